@@ -98,18 +98,18 @@ func CallHandlerDeferred(h handlers.Handler, op wire.Op) (res HRes) {
 		} else {
 			res.Hits = []wire.Hit{{Key: op.Key, Raw: nonNil(r.Data), Flags: r.Flags, Idx: 0}}
 		}
-	case "get", "mget", "gete":
+	case "get", "mget", "gete", "mgete":
 		keys := op.Keys
-		if op.Kind != "mget" {
+		if op.Kind != "mget" && op.Kind != "mgete" {
 			keys = []string{op.Key}
 		}
 		req := common.GetRequest{}
 		for i, k := range keys {
 			req.Keys = append(req.Keys, wire.KeySlice(k, op.Spare))
 			req.Opaques = append(req.Opaques, uint32(100+i))
-			req.Quiet = append(req.Quiet, op.Kind == "mget" && len(op.Quiet) == len(keys) && op.Quiet[i])
+			req.Quiet = append(req.Quiet, (op.Kind == "mget" || op.Kind == "mgete") && len(op.Quiet) == len(keys) && op.Quiet[i])
 		}
-		req.NoopEnd = op.Kind == "mget" && op.NoopEnd
+		req.NoopEnd = (op.Kind == "mget" || op.Kind == "mgete") && op.NoopEnd
 		res.Class = "values"
 		idx := func(opq uint32) int { return int(opq) - 100 }
 		answered := make([]int, len(keys))
@@ -128,7 +128,7 @@ func CallHandlerDeferred(h handlers.Handler, op wire.Op) (res HRes) {
 				}
 			}
 		}
-		if op.Kind == "gete" {
+		if op.Kind == "gete" || op.Kind == "mgete" {
 			rc, ec := h.GetE(req)
 			for rc != nil || ec != nil {
 				select {
